@@ -149,6 +149,8 @@ def build_archive(spec):
         if t == "proximity":  # corners, so that the bounds are the ranges
             meas[0] = [lo for lo, _ in ranges]
             meas[1] = [hi for _, hi in ranges]
+            if spec.get("flat"):    # every entry shares its first coordinate: that measure range is exactly 0
+                meas[:, 0] = meas[0, 0]
         a.add(g.integers(-3, 4, (k, 2)).astype(dt), g.integers(-5, 6, k).astype(dt), meas)
     return (Spy(a) if spec.get("spy") else a), a
 
@@ -682,6 +684,8 @@ def gen_case(rng, tier):
             "fill": rng.randrange(1 << 30), "n_fill": rng.choice([0, 1, 3, 6]), "spy": rng.random() < 0.3 and atype != "none"}
     if arch["dtype"] == "float32":
         arch["ranges"] = [[float(np.float32(a)), float(np.float32(b))] for a, b in arch["ranges"]]
+    if atype == "proximity" and rng.random() < 0.3:
+        arch["flat"] = True
     seed = [rng.choice(["int", "int", "ss"]), rng.randrange(1 << 31)]
     ops = []
     if kind in RDK:
